@@ -18,6 +18,7 @@ SHARED = [
 
 class C11(HistProp):
     id = 'C11'
+    also_release = True
     module = 'Cbor.Props.C11'
     theorems = ['Props.C11.C11_copy', 'Props.C11.C11_copy_denotes', 'Props.C11.C11_same_bytes', 'Props.C11.C11_copy_counts_one', 'Props.C11.C11_release_copy',
                 'Props.C11.C11_release_source', 'Props.C11.C11_source_intact', 'Props.C11.C11_books', 'Props.C11.copy_scalar', 'Props.C11.copy_string',
